@@ -252,10 +252,10 @@ func Specs() map[string]*PropSpec {
 			{Pkg: "x/evm/keeper", Fn: "VerifC01_BlockHashNoProcessState", Params: pm("lookups", "2"), EngineReplay: true}, {Pkg: "x/coinomics/keeper", Fn: "VerifC13_Mint", Params: pm()},
 			{Pkg: "app/ante/utils", Fn: "VerifC01_ClaimRewardsOrder", Params: pm("delegations", "4"), EngineReplay: true}, {Pkg: "x/feemarket/keeper", Fn: "VerifC01_BaseFeeNoProcessState", Params: pm()}},
 		Wiring: []WiringFact{{Kind: "mapranges",
-			Callee: "(*github.com/haqq-network/haqq/app.Haqq).BlockedAddrs|(*github.com/haqq-network/haqq/app.Haqq).ModuleAccountAddrs|github.com/haqq-network/haqq/app.GetMaccPerms|(*github.com/haqq-network/haqq/x/evm/statedb.journal).sortedDirties|(github.com/haqq-network/haqq/x/evm/statedb.Storage).SortedKeys|(github.com/haqq-network/haqq/x/evm/keeper.Keeper).GetAvailablePrecompileAddrs|github.com/haqq-network/haqq/ethereum/eip712.sortedJSONKeys|github.com/haqq-network/haqq/app/upgrades/v1.7.5.processAccount",
-			Why:    "the first three build maps / sets from maps at construction time, the next four sort what they collected before anything uses it (sortedDirties / SortedKeys are explored order by order by VerifC01_CommitOrder), processAccount belongs to the historical v1.7.5 upgrade handler whose results are sorted afterwards (its unsynchronised goroutines are outside this technique, see DESIGN)"}},
+			Callee: "(*github.com/haqq-network/haqq/app.Haqq).BlockedAddrs|(*github.com/haqq-network/haqq/app.Haqq).ModuleAccountAddrs|github.com/haqq-network/haqq/app.GetMaccPerms|(*github.com/haqq-network/haqq/x/evm/statedb.journal).sortedDirties|(github.com/haqq-network/haqq/x/evm/statedb.Storage).SortedKeys|(github.com/haqq-network/haqq/x/evm/keeper.Keeper).GetAvailablePrecompileAddrs|github.com/haqq-network/haqq/ethereum/eip712.sortedJSONKeys|(*github.com/haqq-network/haqq/x/evm/statedb.StateDB).RefreshStorage|github.com/haqq-network/haqq/app/upgrades/v1.7.5.processAccount",
+			Why:    "the first three build maps / sets from maps at construction time, the next five sort what they collected before anything uses it (sortedDirties / SortedKeys are explored order by order by VerifC01_CommitOrder; RefreshStorage, added by fix 98ffa7e, collects the addresses, sorts them and reads the keys through SortedKeys), processAccount belongs to the historical v1.7.5 upgrade handler whose results are sorted afterwards (its unsynchronised goroutines are outside this technique, see DESIGN)"}},
 		Bounds: map[string]string{
-			"quick":    "StateDB.Commit after every program of <= 2 operations (transfers, SSTOREs) over 3 accounts sharing their first 16 address bytes and 2 slots: all iteration orders of the dirty-account and dirty-storage maps explored; the sequence of keeper writes is ascending in (address, key) for each; node-local configuration: the eth gas-consume decorator in DeliverTx mode on <= 2 messages (any gas, prices, base fee, block gas limit) under two arbitrary values of the operator's max-tx-gas-wanted setting gives the same verdict, transaction gas limit and priority (relational check); building the EVM tracer from the node-local evm.tracer option succeeds for every option value and for calls and contract creations; BLOCKHASH (Keeper.GetHashFn, keeper built by the real NewKeeper): a replica that served <= 1 earlier lookup (any of 2 heights, any subset of the historical entries kept at that time) answers a lookup exactly as a freshly started replica over the same consensus state (any subset kept now, present entries answer their header hash, pruned ones the zero hash); node time zone: the engine gives every process-local time value (time.Unix / UnixMilli / Local()) an arbitrary zone offset in [-12h, +14h] as an environment input, and the coinomics mint step (the state-machine code that reads calendar fields) equals the UTC formula for every offset (VerifC13_Mint, as C13); fee path of both ante routes (ClaimStakingRewardsIfNecessary, <= 3 delegations, any rewards / fee / balance): under every iteration order of every Go map the code ranges over, the delegations whose rewards are withdrawn are the shortest store-order prefix covering the shortfall; base fee: computing it for a block, then for any other gas figure, then for the first again gives the same value (no state kept in package-level big.Int constants); coverage guard: no function of the application's own packages ranges over a Go map outside an audited list of 8",
+			"quick":    "StateDB.Commit after every program of <= 2 operations (transfers, SSTOREs) over 3 accounts sharing their first 16 address bytes and 2 slots: all iteration orders of the dirty-account and dirty-storage maps explored; the sequence of keeper writes is ascending in (address, key) for each; node-local configuration: the eth gas-consume decorator in DeliverTx mode on <= 2 messages (any gas, prices, base fee, block gas limit) under two arbitrary values of the operator's max-tx-gas-wanted setting gives the same verdict, transaction gas limit and priority (relational check); building the EVM tracer from the node-local evm.tracer option succeeds for every option value and for calls and contract creations; BLOCKHASH (Keeper.GetHashFn, keeper built by the real NewKeeper): a replica that served <= 1 earlier lookup (any of 2 heights, any subset of the historical entries kept at that time) answers a lookup exactly as a freshly started replica over the same consensus state (any subset kept now, present entries answer their header hash, pruned ones the zero hash); node time zone: the engine gives every process-local time value (time.Unix / UnixMilli / Local()) an arbitrary zone offset in [-12h, +14h] as an environment input, and the coinomics mint step (the state-machine code that reads calendar fields) equals the UTC formula for every offset (VerifC13_Mint, as C13); fee path of both ante routes (ClaimStakingRewardsIfNecessary, <= 3 delegations, any rewards / fee / balance): under every iteration order of every Go map the code ranges over, the delegations whose rewards are withdrawn are the shortest store-order prefix covering the shortfall; base fee: computing it for a block, then for any other gas figure, then for the first again gives the same value (no state kept in package-level big.Int constants); coverage guard: no function of the application's own packages ranges over a Go map outside an audited list of 9",
 			"thorough": "<= 3 operations; <= 2 earlier BLOCKHASH lookups; <= 4 delegations",
 		},
 		Outside:     []string{"equality of app hashes of two replicas over block histories (BaseApp, IAVL, all modules)", "goroutine-fed counters (app/tps_counter.go): concurrency", "fixed Begin/EndBlocker ordering and sorted module-account construction in app.go (construction-time facts)"},
@@ -303,5 +303,61 @@ func Specs() map[string]*PropSpec {
 		Assumptions: []string{"abi.ABI Pack / Unpack / UnpackIntoInterface / EventByID replaced by passing Go values", "EVM keeper (interface) = token contract stub; bank keeper = ledger stub", "counterexamples confirmed by concrete re-execution in the SSA interpreter"},
 		Stubs:       []string{"c10EVM (token contract: honest ledger / adversarial)", "c10Bank", "c10AK"},
 	}
+	// ---- instances added in round 7 (appended to both tiers; bounds text appended to the quick / thorough descriptions)
+	add := func(id string, pkgs []string, bound string, in ...Inst) {
+		sp := m[id]
+		sp.Quick = append(append([]Inst{}, sp.Quick...), in...)
+		sp.Thorough = append(append([]Inst{}, sp.Thorough...), in...)
+		for _, p := range pkgs {
+			has := false
+			for _, q := range sp.Pkgs {
+				has = has || q == p
+			}
+			if !has {
+				sp.Pkgs = append(sp.Pkgs, p)
+			}
+		}
+		for _, tier := range []string{"quick", "thorough"} {
+			if t := sp.Bounds[tier]; t != "same" && t != "" {
+				sp.Bounds[tier] = t + "; " + bound
+			}
+		}
+	}
+	er := func(pkg, fn string, kv ...string) Inst { return Inst{Pkg: pkg, Fn: fn, Params: pm(kv...), EngineReplay: true} }
+	nr := func(pkg, fn string, kv ...string) Inst { return Inst{Pkg: pkg, Fn: fn, Params: pm(kv...)} }
+	add("C01", []string{"./x/evm/keeper"}, "GetCode of the real EVM keeper after nothing / a read on another branch / a branch that stored and read the code and was discarded / a branch that deleted it: the committed code is returned and the store is read exactly once (charged) whatever the process loaded before",
+		er("x/evm/keeper", "VerifC01_GetCodeNoProcessState"))
+	add("C02", nil, "StateDB programs with a contract creation onto a pre-funded address (CreateAccount carries the balance over) inside frames that may revert, 4 operations, 2 addresses",
+		sd("VerifC05_StateDB", "ops", "4", "kinds", "tnf", "addrs", "2", "amts", "1"))
+	add("C05", []string{"./precompiles/ics20"}, "the same creation programs; the real ICS-20 Precompile.Run under a limited grant with the module refusing, the amount exceeding the limit (limits 1..3, amounts 1..4) or the SDK gas meter running out at the grant update: a failed call leaves escrow and grant untouched",
+		sd("VerifC05_StateDB", "ops", "4", "kinds", "tnf", "addrs", "2", "amts", "1"), er("precompiles/ics20", "VerifC05_Ics20RunAtomic"))
+	add("C04", nil, "the real ICS-20 Precompile.Run under a limited grant (limits 1..3, amounts 1..4), module refusing / gas running out at the grant update: success escrows exactly the amount and reduces the grant by it, failure changes nothing",
+		er("precompiles/ics20", "VerifC05_Ics20RunAtomic"))
+	add("C03", nil, "Ethereum route: the unsigned From field (empty / the signer / somebody else) x execution mode (deliver / check / recheck): the basic validation refuses a filled-in From outside recheck, the signature verification leaves From = recovered signer",
+		nr("app/ante/evm", "VerifC03_FromIsTheRecoveredSigner"))
+	add("C06", nil, "router: first option's type URL in 7 spellings of each of the three known names (exact, host prefix, path prefix, double slash, no slash, trailing slash, upper case), optional second option: only the exact spelling builds a route (the right one), everything else is ErrUnknownExtensionOptions",
+		er("app/ante", "VerifC06_RouterExactTypeURL"))
+	add("C07", nil, "the Cosmos route never carries an Ethereum message, also not inside authz exec trees placed after ordinary messages (the C06 forest harness; an Ethereum message executed without the Ethereum ante chain pays no up-front fee and still gets the refund)",
+		an("depth", "2", "width", "2", "top", "2"))
+	add("C08", nil, "a schedule applied to an existing plain or vesting account tracks as delegated exactly that account's own bonded + unbonding stake (account and funder stakes < 2^100 arbitrary); MsgConvertVestingAccount succeeds only when the lockup schedule holds nothing and nothing is unvested, whatever is delegated (2+2 periods)",
+		vk("VerifC08_ScheduleTracksOwnStake"), vk("VerifC08_ConvertBackKeepsLockup"))
+	add("C09", nil, "CoinEq over two denominations (absent = 0) holds exactly for equal amounts; an account over two denominations that passes Validate has both schedules adding up to the original grant per denomination; message period lengths up to 2^62: an accepted message's end time fits an int64; MsgConvertVestingAccount as under C08",
+		vt("VerifC09_CoinEq"), vt("VerifC09_ValidateTotals"), vk("VerifC08_ConvertBackKeepsLockup"))
+	add("C10", nil, "a token slot written in an outer frame, then one or two inner frames writing slots of the same contract and reverting: the outer write is persisted by the final Commit, nothing of the inner frames is",
+		er("x/evm/statedb", "VerifC10_WriteSurvivesInnerRevert"))
+	add("C11", []string{"./x/vesting/keeper"}, "MsgConvertVestingAccount on an arbitrary valid account (2+2 periods, arbitrary tracked delegations): accepted only when the lockup schedule holds nothing back (redeemed coins keep their lock although staked)",
+		vk("VerifC08_ConvertBackKeepsLockup"))
+	add("C12", nil, "all accounts 32-byte addresses sharing their first 20 bytes (longaddr=2)",
+		dk("VerifC12_Transfer", "accounts", "2", "longaddr", "2"), dk("VerifC12_Fund", "accounts", "2", "longaddr", "2"))
+	add("C13", nil, "parameters admitted by the running chain's door (the validator registered per key in ParamSetPairs, what x/params runs on a parameter change) instead of Params.Validate",
+		ck("VerifC13_ParamsAdmitMint", "door", "1"))
+	add("C16", []string{"./x/erc20/keeper"}, "GetCoinAddress for a plain coin / an IBC voucher / malformed voucher names, registered or not: a registered denomination is reported under its pair's address and GetTokenDenom resolves that address back; an unregistered voucher under its hash-derived address",
+		nr("x/erc20/keeper", "VerifC16_CoinAddressAgreesWithRegistry"))
+	add("C17", []string{"./x/evm/keeper"}, "ApplyTransaction with post-processing hooks set (failing or not), VM failing or not, after earlier messages of the same transaction used an arbitrary amount of gas: the transient running total grows by exactly this message's gas",
+		er("x/evm/keeper", "VerifC05_ApplyTransaction"))
+	add("C18", []string{"./app/ante/evm"}, "the Ethereum vesting decorator over 1-2 messages (legacy / access-list / dynamic-fee) of a vesting account leaves every message's value as signed",
+		nr("app/ante/evm", "VerifC08_EthAnte", "msgs", "2"))
+	add("C19", []string{"./x/epochs"}, "ucdao ledger over 3 denominations (more than one scaled page); epochs: one or two epochs, started or not, arbitrary epoch numbers / start heights / start times, exported at height H and imported at H+1 after an arbitrary downtime",
+		er("x/ucdao/keeper", "VerifC19_Ucdao", "accounts", "2", "denoms", "3"), nr("x/epochs", "VerifC19_Epochs"))
 	return m
 }
